@@ -313,7 +313,8 @@ def new_scene(doc, st, r):
 
 def exh_members(doc, st, site, n, offset=0):
     """n fresh members for the collection of an exhaustive single-save case"""
-    from collada import scene, light
+    import numpy
+    from collada import scene, light, material, source
     out = []
     for i in range(n):
         k = i + offset
@@ -321,6 +322,20 @@ def exh_members(doc, st, site, n, offset=0):
             out.append(scene.Node(st.fresh('x')))
         elif site == 'node_tr':
             out.append(scene.TranslateTransform(float(k + 1), 0.0, 0.5 * k) if k % 2 == 0 else scene.ScaleTransform(1.0 + k, 2.0, 1.0))
+        elif site == 'bind':
+            out.append(scene.MaterialNode('sym%d' % k, doc.materials[0], []))
+        elif site == 'bvi':
+            out.append(('CH%d' % k, 'TEXCOORD', str(k)))
+        elif site == 'prims':
+            g = doc.geometries[0]
+            il = source.InputList()
+            il.addInput(0, 'VERTEX', '#exhpos')
+            if k % 2 == 0:
+                out.append(g.createTriangleSet(numpy.array([0, 1, 2], dtype=numpy.int32), il, 'm%d' % k))
+            else:
+                out.append(g.createLineSet(numpy.array([0, 1], dtype=numpy.int32), il, 'm%d' % k))
+        elif site == 'params':
+            out.append(material.Surface(st.fresh('surf'), doc.images[0]))
         else:
             out.append(light.AmbientLight(st.fresh('x'), (1, 1, 1)))
     return out
@@ -333,7 +348,66 @@ def exh_collection(doc, site):
         return doc.scenes[0].nodes[0].transforms
     if site == 'node_ch':
         return doc.scenes[0].nodes[0].children
+    if site == 'bind':
+        return doc.scenes[0].nodes[0].children[0].materials
+    if site == 'bvi':
+        return doc.scenes[0].nodes[0].children[0].materials[0].inputs
+    if site == 'prims':
+        return doc.geometries[0].primitives
+    if site == 'params':
+        return doc.effects[0].params
     return doc.lights
+
+
+def exh_prepare(doc, st, site):
+    """what the collection of the site needs around it"""
+    import numpy
+    from collada import scene, material, source, geometry
+    root = doc.scenes[0].nodes[0] if doc.scenes[0].nodes else None
+    if site in ('bind', 'bvi', 'prims'):
+        src = source.FloatSource('exhpos', numpy.array([0, 0, 0, 1, 0, 0, 0, 1, 0], dtype=numpy.float32), ('X', 'Y', 'Z'))
+        doc.geometries.append(geometry.Geometry(doc, 'exhgeom', 'exhgeom', [src]))
+    if site in ('bind', 'bvi'):
+        eff = material.Effect('exheffect', [], 'phong')
+        doc.effects.append(eff)
+        doc.materials.append(material.Material('exhmat', 'exhmat', eff))
+        mats = [scene.MaterialNode('symroot', doc.materials[0], [])] if site == 'bvi' else []
+        root.children.append(scene.GeometryNode(doc.geometries[0], mats))
+    if site == 'params':
+        doc.images.append(material.CImage('exhimg', 'a.png'))
+        doc.effects.append(material.Effect('exheffect', [], 'phong'))
+
+
+def split_libraries(data, r):
+    """the same document with the members of every managed library spread over TWO library
+    elements of that kind (legal COLLADA; the loader reads all of them)"""
+    root = ET.fromstring(data)
+    ET.register_namespace('', NS)
+    for _, libname, _ in LIBS:
+        lib = root.find(T(libname))
+        if lib is None or len(lib) < 2 or r.random() < 0.15:
+            continue
+        kids = list(lib)
+        how = r.choice(['cut', 'cut', 'alternate', 'first-only-one'])
+        if how == 'cut':
+            c = r.randint(1, len(kids) - 1)
+            second = kids[c:]
+        elif how == 'alternate':
+            second = kids[1::2]
+        else:
+            second = kids[1:]
+        lib2 = ET.Element(T(libname))
+        for k in second:
+            lib.remove(k)
+            lib2.append(k)
+        pos = list(root).index(lib) + 1
+        if r.random() < 0.5:
+            # somewhere later among the root children, but before <scene>
+            sc = root.find(T('scene'))
+            last = list(root).index(sc) if sc is not None else len(root)
+            pos = r.randint(pos, max(pos, last))
+        root.insert(pos, lib2)
+    return ET.tostring(root)
 
 
 def build_base(base, st):
@@ -348,6 +422,7 @@ def build_base(base, st):
         sc = scene.Scene('s', [root] if site != 'scene' else [])
         doc.scenes.append(sc)
         doc.scene = sc
+        exh_prepare(doc, st, site)
         old = exh_members(doc, st, site, base['old'])
         doc._verif_old = old
         coll = exh_collection(doc, site)
@@ -378,6 +453,12 @@ def build_base(base, st):
         from collada import asset
         doc.assetInfo.title = 'T' + st.fresh('t')
         doc.assetInfo.contributors.append(asset.Contributor(author='me', authoring_tool='tool'))
+    if base.get('split') is not None:
+        # written, its libraries split in two, and LOADED again: a loaded document with two
+        # library elements of one kind
+        buf = io.BytesIO()
+        doc.write(buf)
+        doc = collada.Collada(io.BytesIO(split_libraries(buf.getvalue(), random.Random(base['split']))))
     return doc
 
 
@@ -523,6 +604,13 @@ def list_edit(lst, op, r, make):
         lst[:] = items
     elif k == 'reverse':
         lst.reverse()
+    elif k == 'clear':
+        del lst[:]
+    elif k == 'fill':
+        for _ in range(op.get('n', 2)):
+            o = make()
+            if o is not None:
+                lst.insert(r.randint(0, len(lst)), o)
     elif k == 'move':
         if n:
             o = lst.pop(op['pos'] % n)
@@ -559,6 +647,9 @@ def apply_op(doc, st, op, out):
         how = op['how']
         if how == 'add':
             lst.insert(op['pos'] % (n + 1), new_lib_object(doc, st, r, lib))
+        elif how == 'fill':
+            for _ in range(op.get('n', 2)):
+                lst.insert(r.randint(0, len(lst)), new_lib_object(doc, st, r, lib))
         elif how == 'remove' and n:
             p = op['pos'] % n
             victims = list(lst)[p:p + op.get('n', 1)]
@@ -708,6 +799,28 @@ def apply_op(doc, st, op, out):
                 list_edit(mn.inputs, dict(op, how=how[4:]), r,
                           lambda: (r.choice(['TEX0', 'UV', 'CH1', 'CH2']), 'TEXCOORD',
                                    None if r.random() < 0.2 else str(r.randint(0, 3))))
+        return
+    if t == 'eparams':
+        if not doc.effects:
+            return
+        e = doc.effects[op['pos'] % len(doc.effects)]
+        if op['how'] == 'clear':
+            for prop in e.supported:
+                if isinstance(getattr(e, prop), material.Map):
+                    setattr(e, prop, (0.5, 0.5, 0.5, 1.0) if prop not in ('shininess', 'reflectivity', 'transparency') else 0.5)
+            e.bumpmap = None
+            del e.params[:]
+        else:
+            if not doc.images:
+                doc.images.append(new_image(st, r))
+            for _ in range(op.get('n', 2)):
+                sf = material.Surface(st.fresh('surf'), r.choice(list(doc.images)), r.choice([None, 'A8R8G8B8']))
+                sm = material.Sampler2D(st.fresh('samp'), sf, r.choice([None, 'LINEAR']), r.choice([None, 'NEAREST']))
+                at = r.randint(0, len(e.params))
+                e.params[at:at] = [sf, sm]
+            if r.random() < 0.6:
+                sm = [p for p in e.params if isinstance(p, material.Sampler2D)][-1]
+                e.diffuse = material.Map(sm, 'UV')
         return
     if t == 'attr':
         what = op['what']
@@ -1713,7 +1826,7 @@ def run_case(case, pid='C02', want_content=True):
     out['skel_file'] = skel_of_snapshot(filesnap)
     out['info'].update({'bytes': len(data), 'nsites': len(out['sites']),
                         'nnodes': len(all_nodes(doc)), 'libs': {a: len(getattr(doc, a)) for a, _, _ in LIBS}})
-    if want_content and case['base']['kind'] != 'file' and len(data) < 200000:
+    if want_content and case['base']['kind'] == 'gen' and case['base'].get('split') is None and len(data) < 200000:
         out['content'] = content_of(doc, filesnap)
         out['xml'] = data.decode('utf-8')
     return out
